@@ -6,7 +6,8 @@
 // truncated / extended / duplicated / swapped with the fields of donor records
 // signed by the same key, another key, or the same key with an expired EOL;
 // unknown fields, wrong wire types, non-minimal varints, padding to the size
-// limit). Every variant is offered to ipns.ValidateWithName, ipns.Validate and
+// limit; the signed CBOR data re-encoded into different bytes for the same
+// document, see reencode.go). Every variant is offered to ipns.ValidateWithName, ipns.Validate and
 // ipns.Validator.Validate (with and without a KeyBook). Whenever one of them
 // ACCEPTS, the oracle recomputes from the raw bytes (own protobuf wire parser,
 // libp2p crypto, and the inputs the harness gave to NewRecord) that the
@@ -38,7 +39,7 @@ const strictSignatureBytes = false
 func main() { vlib.Run("C25", run) }
 
 func run(c *vlib.Ctx) {
-	c.Rule("case = one base record (key type x v1-compat x embed option x future/expired EOL x seq/ttl/value/metadata classes) plus donor records (same key other content, other key same content, same key expired, same key re-signed) and 20-45 wire-level variants, each judged through ValidateWithName, Validate, Validator.Validate(+-KeyBook); distinct = FNV of base spec + variant list + observed accept/reject codes; non-trivial = within the case at least one variant was accepted by some entry point AND at least one variant was rejected by all of them (measured)")
+	c.Rule("case = one base record (key type x v1-compat x embed option x future/expired EOL x seq/ttl/value/metadata classes) plus donor records (same key other content, other key same content, same key expired, same key re-signed) and 20-45 wire-level variants (incl. data re-encoded as different CBOR bytes of the same document), each judged through ValidateWithName, Validate, Validator.Validate(+-KeyBook); distinct = FNV of base spec + variant list + observed accept/reject codes; non-trivial = within the case at least one variant was accepted by some entry point AND at least one variant was rejected by all of them (measured)")
 	kit.Keys(c.Seed)
 	c.Cases("v1", c.N(230, 1400), func(k *vlib.Case) { mutationCase(k, "v1") })
 	c.Cases("v2", c.N(170, 1000), func(k *vlib.Case) { mutationCase(k, "v2") })
@@ -47,6 +48,7 @@ func run(c *vlib.Ctx) {
 	c.Cases("size", c.N(32, 100), sizeCase)
 	c.Cases("malleable", c.N(40, 200), malleableCase)
 	c.Cases("flipall", c.N(16, 64), flipAllCase)
+	c.Cases("reencode", c.N(48, 400), reencodeCase)
 }
 
 // ---------------------------------------------------------------- world
@@ -68,6 +70,7 @@ type world struct {
 	ks       []*kit.Key
 	kb       *kit.KeyBook
 	signedBy map[string]map[string]*signedInfo // key ID -> data blob -> info
+	anyData  map[string]bool                   // every data blob some harness key signed in this case
 	accepted int                               // variants accepted by >= 1 entry point
 	rejected int                               // variants rejected by all entry points
 	quiet    bool                              // exhaustive sweeps: tally outcome codes instead of logging each variant
@@ -76,7 +79,7 @@ type world struct {
 
 func newWorld(k *vlib.Case) *world {
 	ks := kit.Keys(k.C.Seed)
-	return &world{k: k, ks: ks, kb: kit.NewKeyBook(ks), signedBy: map[string]map[string]*signedInfo{}}
+	return &world{k: k, ks: ks, kb: kit.NewKeyBook(ks), signedBy: map[string]map[string]*signedInfo{}, anyData: map[string]bool{}}
 }
 
 func (w *world) finish() {
@@ -114,6 +117,7 @@ func (w *world) make(s *kit.Spec) *made {
 		m[string(v.Bytes[kit.FData])] = info
 	}
 	info.sigs[string(v.Bytes[kit.FSignatureV2])] = true
+	w.anyData[string(v.Bytes[kit.FData])] = true
 	return &made{spec: s, rec: rec, wire: wire, fs: fs}
 }
 
@@ -249,13 +253,18 @@ func (w *world) oracle(entry string, wire []byte, rec *ipns.Record, nk *kit.Key,
 	data, sig := v.Bytes[kit.FData], v.Bytes[kit.FSignatureV2]
 	// signature under the key of the name, recomputed with libp2p crypto
 	good, verr := nk.PK.Verify(kit.SigV2Message(data), sig)
+	if !w.anyData[string(data)] {
+		// these bytes were never signed by anybody: whatever the signature field holds, it is not a signature over them
+		fail("forged-data-accepted/"+featKind(feat), "accept => data is byte-identical to data signed by the holder of the key (any change to the signed data makes validation fail)", "rejection: no signature over these bytes exists", fmt.Sprintf("independent verify of signatureV2 over these bytes: %v (err %v); data %s", good, verr, kit.Hex(data)))
+		return fails
+	}
 	if verr != nil || !good || len(sig) == 0 || len(data) == 0 {
 		fail("sigv2-invalid-accepted/pubkey-"+pkState, "accept => signatureV2 over data verifies under the key of the name", "verifies", fmt.Sprintf("verify=%v err=%v sig=%s", good, verr, kit.Hex(sig)))
 		return fails
 	}
 	info := w.signedBy[nk.ID][string(data)]
 	if info == nil {
-		fail("forged-data-accepted", "accept => data is byte-identical to data signed by the holder of the key", "one of the signed blobs", "data "+kit.Hex(data))
+		fail("forged-data-accepted/other-signer", "accept => data is byte-identical to data signed by the holder of the key", "one of the signed blobs", "data "+kit.Hex(data))
 		return fails
 	}
 	if !info.sigs[string(sig)] {
@@ -711,6 +720,12 @@ func mutationCase(k *vlib.Case, mode string) {
 				d2, f2, fs2 := m.legacyInject(fs)
 				desc, feat, fs = desc+"; "+d2, feat+"+"+f2, fs2
 			}
+		case r.Chance(1, 14):
+			if w.judgeReencoded(r, &made{spec: base.spec, fs: start}, key, vlib.Pick(r, append([]string{"map-reverse", "map-shuffle", "map-swap-adjacent", "map-shuffle", "map-swap-adjacent"}, reencodeKinds...))) {
+				continue
+			}
+			i--
+			continue
 		case r.Chance(1, 12):
 			desc, feat, fs = m.pubkeyInsert(start)
 		default:
